@@ -94,6 +94,19 @@ class StdHooks(KernelHooks):
             n = 0
             if args:
                 a0 = args[0]
+                if 'initializer_list' in a0.get('t', ''):
+                    src = it.eval(a0)
+                    if isinstance(src, Cell):
+                        src = src.value
+                    o = Obj('std::vector', None, this_cell.name)
+                    cnt = src.size
+                    reg = Region((this_cell.name or 'vec') + '.data', cnt, None, 'heap')
+                    for k in range(cnt):
+                        reg.cell(k).value = src.cell(k).value
+                    o.field('data').value = reg
+                    o.field('n').value = cnt
+                    this_cell.value = o
+                    return None
                 if 'allocator' in a0.get('t', ''):
                     n = 0
                 else:
